@@ -176,14 +176,14 @@ func mutexKind(t types.Type) string {
 var fsFuncs = map[string]bool{
 	"ReadFile": true, "Open": true, "OpenFile": true, "Create": true, "WriteFile": true, "CreateTemp": true,
 	"Stat": true, "Lstat": true, "Chmod": true, "Rename": true, "Remove": true, "MkdirAll": true, "Readlink": true, "Symlink": true,
-	"SameFile": true,
+	"SameFile": true, "DirFS": true,
 }
 
 // os functions that touch the file system or process state and that the
 // simulator does not model: their use is an instrumentation failure.
 var osUnsupported = map[string]bool{
 	"Mkdir": true, "ReadDir": true, "Link": true, "Truncate": true, "RemoveAll": true,
-	"Chown": true, "Chtimes": true, "DirFS": true, "MkdirTemp": true, "NewFile": true,
+	"Chown": true, "Chtimes": true, "MkdirTemp": true, "NewFile": true,
 	"Chdir": true, "Pipe": true, "StartProcess": true, "Lchown": true, "CopyFS": true,
 }
 
